@@ -445,7 +445,14 @@ pub fn finish(rep: Report, t: Totals, t0: Instant) -> i32 {
         "violations": new_violations,
     });
     let _ = std::fs::create_dir_all(format!("{}/evidence", verif));
-    let evp = format!("{}/evidence/{}.json", verif, rep.property);
+    // a build variant (e.g. debug assertions on) writes next to, never over, the main evidence file
+    let evp = match std::env::var("VERIF_EVIDENCE_SUFFIX") {
+        Ok(sfx) if !sfx.is_empty() => {
+            let _ = std::fs::create_dir_all(format!("{}/evidence/variants", verif));
+            format!("{}/evidence/variants/{}.{}.json", verif, rep.property, sfx)
+        }
+        _ => format!("{}/evidence/{}.json", verif, rep.property),
+    };
     if let Err(e) = std::fs::write(&evp, serde_json::to_vec_pretty(&ev).unwrap()) {
         eprintln!("machinery error: cannot write evidence {}: {}", evp, e);
         return 2;
